@@ -40,6 +40,11 @@ def _decode(L, model, probes):
             (c,) = p.syms
             v = model.eval(c, model_completion=True)
             out[p.param] = {"kind": "node", "index": next(i for i in range(k) if v.eq(U[i]))}
+        elif p.kind == "seq":
+            M, lt = p.syms
+            mem = [i for i in range(k) if ev(M(U[i]))]
+            mem.sort(key=lambda i: sum(1 for j in mem if ev(lt(U[j], U[i]))))
+            out[p.param] = {"kind": "seq", "items": mem}
         elif p.kind == "pairs":
             (R,) = p.syms
             out[p.param] = {"kind": "pairs", "pairs": [(i, j) for i in range(k) for j in range(k) if ev(R(U[i], U[j]))]}
